@@ -472,6 +472,7 @@ c.ensures('frame[elems]', lambda c: (lambda s: ForAll([s], Implies(
 c.ensures('frame[lists]', lambda c: (lambda s: ForAll([s], Implies(c.pre.alive(s), And(
     c.cur.llen(s) == c.pre.llen(s), Select(c.cur.H('$lat'), s) == Select(c.pre.H('$lat'), s))),
     patterns=[c.cur.llen(s), Select(c.cur.H('$lat'), s)]))(q()))
+c.ensures('frame[roles]', lambda c: roles_frame(c.pre, c.cur))
 
 
 def flat_view_lemmas(c, st):
@@ -537,6 +538,7 @@ c.ensures('frame[elems]', lambda c: (lambda s: ForAll([s], Implies(
 c.ensures('frame[lists]', lambda c: (lambda s: ForAll([s], Implies(c.pre.alive(s), And(
     c.cur.llen(s) == c.pre.llen(s), Select(c.cur.H('$lat'), s) == Select(c.pre.H('$lat'), s))),
     patterns=[c.cur.llen(s), Select(c.cur.H('$lat'), s)]))(q()))
+c.ensures('frame[roles]', lambda c: roles_frame(c.pre, c.cur))
 
 c = contract('PureScheduler.remove', FP).param('self').param('job').returns('ref')
 c.for_props('C19')
